@@ -42,11 +42,17 @@ struct Pki {
     cli_ca1: (Vec<u8>, Vec<u8>),
     cli_ca2_der: Vec<u8>,
     cli_ca1_der: Vec<u8>,
+    /// server certificate (SAN example.test) naming "ISRG Root X1" as issuer, signed by our own key
+    srv_fake_public: (Vec<u8>, Vec<u8>),
+    /// whether the fake CA's subject is byte-identical to the ISRG Root X1 trust anchor's
+    fake_public_subject_exact: bool,
 }
+/// subject of the ISRG Root X1 entry of webpki-roots (contents of the Name SEQUENCE)
+const ISRG_X1_SUBJECT: &[u8] = b"1\x0b0\t\x06\x03U\x04\x06\x13\x02US1)0'\x06\x03U\x04\n\x13 Internet Security Research Group1\x150\x13\x06\x03U\x04\x03\x13\x0cISRG Root X1";
 
 const PKI_FILES: &[&str] = &[
     "ca1.pem", "ca2.pem", "srv_example.pem", "srv_example.key", "srv_other.pem", "srv_other.key",
-    "cli_ca2.pem", "cli_ca2.key", "cli_ca1.pem", "cli_ca1.key",
+    "cli_ca2.pem", "cli_ca2.key", "cli_ca1.pem", "cli_ca1.key", "fake_public.pem", "srv_fake_public.pem", "srv_fake_public.key",
 ];
 
 fn openssl(dir: &Path, args: &[&str]) -> Result<(), String> {
@@ -66,7 +72,7 @@ fn pki_valid(dir: &Path) -> bool {
         return false;
     }
     // still valid for a day, and already valid (openssl verify checks notBefore against now)
-    for (ca, leafs) in [("ca1.pem", ["srv_example.pem", "srv_other.pem", "cli_ca1.pem"].as_slice()), ("ca2.pem", ["cli_ca2.pem"].as_slice())] {
+    for (ca, leafs) in [("ca1.pem", ["srv_example.pem", "srv_other.pem", "cli_ca1.pem"].as_slice()), ("ca2.pem", ["cli_ca2.pem"].as_slice()), ("fake_public.pem", ["srv_fake_public.pem"].as_slice())] {
         if openssl(dir, &["x509", "-checkend", "86400", "-noout", "-in", ca]).is_err() {
             return false;
         }
@@ -85,22 +91,25 @@ fn generate_pki(dir: &Path) -> Result<(), String> {
     std::fs::create_dir_all(dir).map_err(|e| e.to_string())?;
     std::fs::write(
         dir.join("req.cnf"),
-        "[req]\ndistinguished_name = dn\nprompt = no\n[dn]\nCN = verif\n[v3_ca]\nbasicConstraints = critical,CA:TRUE\nkeyUsage = critical,keyCertSign,cRLSign\nsubjectKeyIdentifier = hash\n",
+        "[req]\ndistinguished_name = dn\nprompt = no\nstring_mask = nombstr\n[dn]\nCN = verif\n[v3_ca]\nbasicConstraints = critical,CA:TRUE\nkeyUsage = critical,keyCertSign,cRLSign\nsubjectKeyIdentifier = hash\n",
     )
     .map_err(|e| e.to_string())?;
     let genkey = |name: &str| openssl(dir, &["genpkey", "-algorithm", "EC", "-pkeyopt", "ec_paramgen_curve:P-256", "-out", name]);
-    for ca in ["ca1", "ca2"] {
+    for ca in ["ca1", "ca2", "fake_public"] {
         genkey(&format!("{}.key", ca))?;
+        // the third "CA" carries the subject of a real public root (and a key of ours)
+        let subj = if ca == "fake_public" { "/C=US/O=Internet Security Research Group/CN=ISRG Root X1".to_string() } else { format!("/O=verif/CN=verif test {}", ca) };
         openssl(
             dir,
             &[
                 "req", "-x509", "-new", "-key", &format!("{}.key", ca), "-config", "req.cnf", "-extensions", "v3_ca",
-                "-subj", &format!("/O=verif/CN=verif test {}", ca), "-days", "3650", "-sha256", "-out", &format!("{}.pem", ca),
+                "-subj", &subj, "-days", "3650", "-sha256", "-out", &format!("{}.pem", ca),
             ],
         )?;
     }
     // (name, issuing CA, extended key usage, SAN, serial)
-    let leafs: [(&str, &str, &str, Option<&str>, &str); 4] = [
+    let leafs: [(&str, &str, &str, Option<&str>, &str); 5] = [
+        ("srv_fake_public", "fake_public", "serverAuth", Some("example.test"), "301"),
         ("srv_example", "ca1", "serverAuth", Some("example.test"), "101"),
         ("srv_other", "ca1", "serverAuth", Some("other.test"), "102"),
         ("cli_ca2", "ca2", "clientAuth", None, "201"),
@@ -132,7 +141,7 @@ fn generate_pki(dir: &Path) -> Result<(), String> {
 }
 
 fn ensure_pki() -> Pki {
-    let dir = PathBuf::from(std::env::var("VERIF_CERT_DIR").unwrap_or_else(|_| "/verif/.cache/certs".to_string()));
+    let dir = cert_dir();
     if !pki_valid(&dir) {
         let tmp = dir.with_file_name(format!("certs.tmp.{}", std::process::id()));
         let _ = std::fs::remove_dir_all(&tmp);
@@ -159,6 +168,12 @@ fn ensure_pki() -> Pki {
         srv_other: (rd("srv_other.pem"), rd("srv_other.key")),
         cli_ca2_der: der(&cli_ca2.0),
         cli_ca1_der: der(&cli_ca1.0),
+        srv_fake_public: (rd("srv_fake_public.pem"), rd("srv_fake_public.key")),
+        fake_public_subject_exact: {
+            let mut st = rustls::RootCertStore::empty();
+            st.add(CertificateDer::from_pem_slice(&rd("fake_public.pem")).unwrap()).unwrap();
+            st.roots[0].subject.as_ref() == ISRG_X1_SUBJECT
+        },
         cli_ca2,
         cli_ca1,
     }
@@ -348,9 +363,75 @@ enum ServerSpec {
     Plain,
     /// tonic's own TLS: Server::builder().tls_config(ServerTlsConfig ..)
     Tonic { cert: (Vec<u8>, Vec<u8>), client_ca: Option<Vec<u8>>, optional: bool },
-    /// a rustls acceptor configured like tonic's but with another ALPN list, in front of a
-    /// plaintext tonic server
-    HandRolled { cert: (Vec<u8>, Vec<u8>), client_ca: Option<Vec<u8>>, optional: bool, alpn: Vec<Vec<u8>> },
+    /// tonic's own server after a sequence of builder calls (tls_config somewhere in it, or not)
+    Built { plan: BuildPlan },
+    /// a rustls acceptor configured like tonic's but with another ALPN list (and optionally
+    /// restricted to TLS 1.2), in front of a plaintext tonic server
+    HandRolled { cert: (Vec<u8>, Vec<u8>), client_ca: Option<Vec<u8>>, optional: bool, alpn: Vec<Vec<u8>>, tls12: bool },
+}
+
+/// Server::builder() . sets_before . [layer_before] . [tls_config] . sets_after . [layer_after]
+#[derive(Clone)]
+struct BuildPlan {
+    sets_before: Vec<u8>,
+    layer_before: Option<u8>, // 0 = tower Identity layer, 1 = tonic InterceptorLayer
+    tls: Option<(Vec<u8>, Vec<u8>, Option<Vec<u8>>, bool)>, // identity cert, key, client CA, optional
+    sets_after: Vec<u8>,
+    layer_after: Option<u8>,
+}
+const N_SETS: u8 = 16;
+const SET_NAMES: [&str; 16] = [
+    "timeout", "concurrency_limit_per_connection", "initial_stream_window_size", "initial_connection_window_size",
+    "max_concurrent_streams", "max_connection_age", "http2_keepalive_interval", "http2_keepalive_timeout",
+    "http2_adaptive_window", "http2_max_pending_accept_reset_streams", "tcp_keepalive", "tcp_nodelay",
+    "http2_max_header_list_size", "max_frame_size", "accept_http1", "trace_fn",
+];
+fn apply_sets<L>(mut s: Server<L>, ops: &[u8]) -> Server<L> {
+    for o in ops {
+        s = match o {
+            0 => s.timeout(Duration::from_secs(30)),
+            1 => s.concurrency_limit_per_connection(16),
+            2 => s.initial_stream_window_size(1u32 << 20),
+            3 => s.initial_connection_window_size(1u32 << 21),
+            4 => s.max_concurrent_streams(100u32),
+            5 => s.max_connection_age(Duration::from_secs(3600)),
+            6 => s.http2_keepalive_interval(Some(Duration::from_secs(60))),
+            7 => s.http2_keepalive_timeout(Some(Duration::from_secs(20))),
+            8 => s.http2_adaptive_window(Some(true)),
+            9 => s.http2_max_pending_accept_reset_streams(Some(20)),
+            10 => s.tcp_keepalive(Some(Duration::from_secs(60))),
+            11 => s.tcp_nodelay(true),
+            12 => s.http2_max_header_list_size(1u32 << 16),
+            13 => s.max_frame_size(1u32 << 15),
+            14 => s.accept_http1(true),
+            _ => s.trace_fn(|_| tracing::Span::none()),
+        };
+    }
+    s
+}
+fn pass_through(r: Request<()>) -> Result<Request<()>, Status> {
+    Ok(r)
+}
+impl BuildPlan {
+    fn coq(&self, cfg_coq: &str) -> String {
+        let mut v: Vec<String> = self.sets_before.iter().map(|o| format!("OpSet {}", o)).collect();
+        if self.layer_before.is_some() {
+            v.push("OpLayer".into());
+        }
+        if self.tls.is_some() {
+            v.push(format!("OpTls {}", cfg_coq));
+        }
+        v.extend(self.sets_after.iter().map(|o| format!("OpSet {}", o)));
+        if self.layer_after.is_some() {
+            v.push("OpLayer".into());
+        }
+        format!("[{}]", v.join("; "))
+    }
+    fn describe(&self) -> String {
+        let names = |v: &Vec<u8>| v.iter().map(|o| SET_NAMES[*o as usize]).collect::<Vec<_>>().join(".");
+        let l = |x: &Option<u8>| match x { None => "", Some(0) => ".layer(Identity)", _ => ".layer(InterceptorLayer)" };
+        format!("builder().{}{}{}.{}{}", names(&self.sets_before), l(&self.layer_before), if self.tls.is_some() { ".tls_config(..)" } else { "" }, names(&self.sets_after), l(&self.layer_after))
+    }
 }
 
 fn ring() -> Arc<rustls::crypto::CryptoProvider> {
@@ -359,8 +440,13 @@ fn ring() -> Arc<rustls::crypto::CryptoProvider> {
 fn pem_certs(pem: &[u8]) -> Vec<CertificateDer<'static>> {
     CertificateDer::pem_slice_iter(pem).collect::<Result<Vec<_>, _>>().unwrap()
 }
-fn hand_rolled_config(cert: &(Vec<u8>, Vec<u8>), client_ca: &Option<Vec<u8>>, optional: bool, alpn: &[Vec<u8>]) -> Arc<rustls::ServerConfig> {
-    let builder = rustls::ServerConfig::builder_with_provider(ring()).with_safe_default_protocol_versions().unwrap();
+fn hand_rolled_config(cert: &(Vec<u8>, Vec<u8>), client_ca: &Option<Vec<u8>>, optional: bool, alpn: &[Vec<u8>], tls12: bool) -> Arc<rustls::ServerConfig> {
+    let builder = rustls::ServerConfig::builder_with_provider(ring());
+    let builder = if tls12 {
+        builder.with_protocol_versions(&[&rustls::version::TLS12]).unwrap()
+    } else {
+        builder.with_safe_default_protocol_versions().unwrap()
+    };
     let builder = match client_ca {
         None => builder.with_no_client_auth(),
         Some(ca) => {
@@ -403,8 +489,46 @@ where
                     .await;
             });
         }
-        ServerSpec::HandRolled { cert, client_ca, optional, alpn } => {
-            let acceptor = tokio_rustls::TlsAcceptor::from(hand_rolled_config(&cert, &client_ca, optional, &alpn));
+        ServerSpec::Built { plan } => {
+            let stream = UnboundedReceiverStream::new(rx).map(Ok::<_, io::Error>);
+            macro_rules! serve {
+                ($s:expr) => {{
+                    let mut b = $s;
+                    tokio::spawn(async move {
+                        let _ = b.add_service(svc).serve_with_incoming(stream).await;
+                    });
+                }};
+            }
+            macro_rules! tail {
+                ($s:expr) => {{
+                    let s = $s;
+                    let s = match &plan.tls {
+                        None => s,
+                        Some((c, k, ca, optional)) => {
+                            let mut cfg = ServerTlsConfig::new().identity(Identity::from_pem(c, k));
+                            if let Some(ca) = ca {
+                                cfg = cfg.client_ca_root(Certificate::from_pem(ca));
+                            }
+                            s.tls_config(cfg.client_auth_optional(*optional)).expect("server tls_config")
+                        }
+                    };
+                    let s = apply_sets(s, &plan.sets_after);
+                    match plan.layer_after {
+                        None => serve!(s),
+                        Some(0) => serve!(s.layer(tower_layer::Identity::new())),
+                        Some(_) => serve!(s.layer(tonic::service::InterceptorLayer::new(pass_through as fn(Request<()>) -> Result<Request<()>, Status>))),
+                    }
+                }};
+            }
+            let s = apply_sets(Server::builder(), &plan.sets_before);
+            match plan.layer_before {
+                None => tail!(s),
+                Some(0) => tail!(s.layer(tower_layer::Identity::new())),
+                Some(_) => tail!(s.layer(tonic::service::InterceptorLayer::new(pass_through as fn(Request<()>) -> Result<Request<()>, Status>))),
+            }
+        }
+        ServerSpec::HandRolled { cert, client_ca, optional, alpn, tls12 } => {
+            let acceptor = tokio_rustls::TlsAcceptor::from(hand_rolled_config(&cert, &client_ca, optional, &alpn, tls12));
             let (tx2, rx2) = mpsc::unbounded_channel::<tokio_rustls::server::TlsStream<IO>>();
             let mut rx = rx;
             tokio::spawn(async move {
@@ -433,12 +557,20 @@ where
 enum Class {
     Served = 0,
     HttpsNoTls = 1,
+    /// the certificate was rejected although a trust anchor with the issuer's name was found
+    BadSignature = 10,
+    /// the peer went away before the client's handshake completed (connect failed)
+    Aborted = 2,
     BadChain = 3,
     BadName = 4,
     H2NotNegotiated = 5,
     Refused = 6,
     PlainServed = 7,
     NotTls = 8,
+    /// a failed call with none of the recognised causes (never predicted by the model)
+    Unclassified = 9,
+    /// internal marker: positive evidence that the peer closed / reset / alerted
+    PeerGone = 50,
     Hang = 98,
 }
 
@@ -448,7 +580,11 @@ fn classify_rustls(r: &rustls::Error) -> Option<Class> {
         E::InvalidCertificate(CertificateError::UnknownIssuer) => Some(Class::BadChain),
         E::InvalidCertificate(CertificateError::NotValidForName) => Some(Class::BadName),
         E::InvalidCertificate(CertificateError::NotValidForNameContext { .. }) => Some(Class::BadName),
+        // a trust anchor with the issuer's name was found and the signature does not verify
+        // against its key (BadSignature, UnsupportedSignatureAlgorithm[ForPublicKey]Context, ..)
+        E::InvalidCertificate(_) => Some(Class::BadSignature),
         E::InvalidMessage(_) => Some(Class::NotTls),
+        E::AlertReceived(_) => Some(Class::PeerGone),
         _ => None,
     }
 }
@@ -470,12 +606,21 @@ fn classify_err(e: &(dyn std::error::Error + 'static), out: &mut Vec<Class>, tex
         if s.contains("HTTP/2 was not negotiated") {
             out.push(Class::H2NotNegotiated);
         }
+        // hyper / h2 reporting that the connection is gone or that the peer does not speak h2
+        if s.contains("connection closed") || s.contains("operation was canceled") || s.contains("connection error")
+            || s.contains("http2 error") || s.contains("broken pipe") || s.contains("connection reset")
+        {
+            out.push(Class::PeerGone);
+        }
         if let Some(r) = x.downcast_ref::<rustls::Error>() {
             out.extend(classify_rustls(r));
         }
         if let Some(ioe) = x.downcast_ref::<io::Error>() {
             if ioe.kind() == io::ErrorKind::UnexpectedEof && s.contains("tls handshake eof") {
                 out.push(Class::NotTls);
+            }
+            if matches!(ioe.kind(), io::ErrorKind::BrokenPipe | io::ErrorKind::ConnectionReset | io::ErrorKind::ConnectionAborted | io::ErrorKind::UnexpectedEof) {
+                out.push(Class::PeerGone);
             }
             if let Some(inner) = ioe.get_ref() {
                 if let Some(r) = inner.downcast_ref::<rustls::Error>() {
@@ -496,6 +641,29 @@ struct ClientSpec {
     tls: Option<ClientTlsConfig>,
     /// use Endpoint::new (the generated clients' path) instead of from_shared + tls_config
     via_endpoint_new: bool,
+    /// what the platform trusts (SSL_CERT_FILE) while the endpoint is configured
+    native: Native,
+}
+#[derive(Clone, Copy, PartialEq, Eq, Debug)]
+enum Native {
+    Ca1,
+    Ca2,
+    Empty,
+}
+impl Native {
+    fn coq(&self) -> &'static str {
+        match self { Native::Ca1 => "[CA1]", Native::Ca2 => "[CA2]", Native::Empty => "[]" }
+    }
+    fn install(&self) {
+        let dir = cert_dir();
+        let f = match self { Native::Ca1 => dir.join("ca1.pem"), Native::Ca2 => dir.join("ca2.pem"), Native::Empty => PathBuf::from("/dev/null") };
+        // single-threaded at this point (current-thread runtimes, created after this call)
+        std::env::set_var("SSL_CERT_FILE", f);
+        std::env::remove_var("SSL_CERT_DIR");
+    }
+}
+fn cert_dir() -> PathBuf {
+    PathBuf::from(std::env::var("VERIF_CERT_DIR").unwrap_or_else(|_| "/verif/.cache/certs".to_string()))
 }
 
 #[derive(Debug, Clone)]
@@ -533,14 +701,14 @@ where
         Err(e) => {
             let mut t = String::new();
             classify_err(&e, &mut vec![], &mut t);
-            obs.cfg_err = Some(if t.to_lowercase().contains("invalid dns name") { 2 } else if t.contains("invalid uri") || t.contains("invalid URI") { 1 } else { 9 });
+            obs.cfg_err = Some(if t.to_lowercase().contains("invalid dns name") { 2 } else if t.contains("no native certs found") { 3 } else if t.contains("invalid uri") || t.contains("invalid URI") { 1 } else { 9 });
             obs.err_text = t;
             return obs;
         }
     };
 
     let (tx, rx) = mpsc::unbounded_channel::<IO>();
-    let is_plain_server = matches!(server, ServerSpec::Plain);
+    let is_plain_server = match &server { ServerSpec::Plain => true, ServerSpec::Built { plan } => plan.tls.is_none(), _ => false };
     spawn_server(server, rx, Svc(shared.clone()));
     let connector = PipeConnector { tx, wrap, wire: wire.clone(), attempts: attempts.clone() };
 
@@ -581,10 +749,12 @@ where
         Class::Hang
     } else if obs.rpc_ok {
         if is_plain_server { Class::PlainServed } else { Class::Served }
-    } else if let Some(c) = classes.first() {
+    } else if let Some(c) = classes.iter().find(|c| **c != Class::PeerGone) {
         *c
+    } else if classes.contains(&Class::PeerGone) {
+        if obs.connect_ok { Class::Refused } else { Class::Aborted }
     } else {
-        Class::Refused
+        Class::Unclassified
     };
     obs
 }
@@ -593,6 +763,7 @@ fn run_call<IO>(client: ClientSpec, server: ServerSpec, wrap: fn(DuplexStream) -
 where
     IO: AsyncRead + AsyncWrite + Connected + Unpin + Send + 'static,
 {
+    client.native.install();
     // a fresh runtime per call: nothing survives into the next cell
     let rt = tokio::runtime::Builder::new_current_thread().enable_time().build().unwrap();
     let r = rt.block_on(do_call(client, server, wrap));
@@ -737,19 +908,22 @@ fn cell_client(pki: &Pki, c: &Cell) -> ClientSpec {
         _ => {}
     }
     t = t.assume_http2(c.assume == 1);
-    ClientSpec { uri: ["https://example.test", "https://other.test"][c.host as usize].to_string(), tls: Some(t), via_endpoint_new: false }
+    ClientSpec { uri: ["https://example.test", "https://other.test"][c.host as usize].to_string(), tls: Some(t), via_endpoint_new: false, native: Native::Ca1 }
 }
-fn cell_server(pki: &Pki, c: &Cell) -> ServerSpec {
+/// mode 0: tonic's acceptor where it can express the cell (ALPN h2), the stub otherwise;
+/// mode 1: the stub also for ALPN h2 (cross-validation of the stub against tonic's acceptor);
+/// mode 2: the stub restricted to TLS 1.2
+fn cell_server_mode(pki: &Pki, c: &Cell, mode: u8) -> ServerSpec {
     let cert = if c.scert == 0 { pki.srv_example.clone() } else { pki.srv_other.clone() };
     let client_ca = if c.cauth >= 2 { Some(pki.ca2.clone()) } else { None };
     let optional = c.cauth == 1 || c.cauth == 3;
-    match c.alpn {
-        0 => ServerSpec::Tonic { cert, client_ca, optional },
-        1 => ServerSpec::HandRolled { cert, client_ca, optional, alpn: vec![] },
-        _ => ServerSpec::HandRolled { cert, client_ca, optional, alpn: vec![b"http/1.1".to_vec()] },
+    let alpn = match c.alpn { 0 => vec![b"h2".to_vec()], 1 => vec![], _ => vec![b"http/1.1".to_vec()] };
+    if mode == 0 && c.alpn == 0 {
+        ServerSpec::Tonic { cert, client_ca, optional }
+    } else {
+        ServerSpec::HandRolled { cert, client_ca, optional, alpn, tls12: mode == 2 }
     }
 }
-
 /// the property, read directly off the cell and the implementation's behaviour
 fn cell_oracle(pki: &Pki, c: &Cell, o: &CallObs) -> Option<String> {
     let ran = !o.seen.is_empty();
@@ -811,9 +985,24 @@ fn cell_oracle(pki: &Pki, c: &Cell, o: &CallObs) -> Option<String> {
     None
 }
 
-fn run_cell(out: &mut Out, pki: &Pki, c: &Cell, kind: &str) {
-    let o = run_call(cell_client(pki, c), cell_server(pki, c), TcpPipe);
-    let oracle = cell_oracle(pki, c, &o);
+fn cell_server(pki: &Pki, c: &Cell) -> ServerSpec {
+    cell_server_mode(pki, c, 0)
+}
+fn run_cell(out: &mut Out, pki: &Pki, c: &Cell, kind: &str) -> Tr {
+    run_cell_mode(out, pki, c, kind, 0, None)
+}
+fn run_cell_mode(out: &mut Out, pki: &Pki, c: &Cell, kind: &str, mode: u8, same_as: Option<&Tr>) -> Tr {
+    let o = run_call(cell_client(pki, c), cell_server_mode(pki, c, mode), TcpPipe);
+    let mut oracle = cell_oracle(pki, c, &o);
+    if o.class == Class::Unclassified && oracle.is_none() {
+        oracle = Some(format!("the call failed for a reason the harness does not recognise: {}", o.err_text));
+    }
+    if let Some(t) = same_as {
+        if oracle.is_none() && *t != call_tr(pki, &o) {
+            oracle = Some("the rustls acceptor configured like tonic's (ALPN h2) behaves differently from tonic's own acceptor on this cell".into());
+        }
+    }
+    out.hist(&format!("{}.observable", kind), call_tr(pki, &o).to_coq());
     out.hist("cell.class", format!("{:?}", o.class));
     out.hist("cell.connect_ok", o.connect_ok);
     out.hist("cell.alpn", ["h2", "none", "http/1.1"][c.alpn as usize]);
@@ -821,7 +1010,11 @@ fn run_cell(out: &mut Out, pki: &Pki, c: &Cell, kind: &str) {
     let mut input = c.json();
     input["observed"] = json!({"connect_ok": o.connect_ok, "rpc_ok": o.rpc_ok, "handler_runs": o.seen.len(),
         "wire_bytes": o.wire.len(), "attempts": o.attempts, "error": o.err_text.chars().take(300).collect::<String>()});
-    out.push(Case { kind: kind.into(), input, model: format!("obs_cell {}", c.coq()), impl_obs: call_tr(pki, &o), oracle, nontrivial: true });
+    input["server"] = json!(["tonic acceptor where expressible", "rustls stub for every ALPN", "rustls stub, TLS 1.2 only"][mode as usize]);
+    let f = if mode == 2 { "obs_cell_tls12" } else { "obs_cell" };
+    let t = call_tr(pki, &o);
+    out.push(Case { kind: kind.into(), input, model: format!("{} {}", f, c.coq()), impl_obs: t.clone(), oracle, nontrivial: true });
+    t
 }
 
 /// quick tier: a pairwise-covering set plus a seeded sample, at least `want` cells
@@ -885,7 +1078,7 @@ fn corpus(out: &mut Out, pki: &Pki) {
         for with_tls in [false, true] {
             for plain_srv in [false, true] {
                 let (srv, srv_coq) = if plain_srv { (ServerSpec::Plain, "SPlain".to_string()) } else { tonic_srv(pki, false, false) };
-                let client = ClientSpec { uri: uri.into(), tls: if with_tls { Some(right()) } else { None }, via_endpoint_new: false };
+                let client = ClientSpec { uri: uri.into(), tls: if with_tls { Some(right()) } else { None }, via_endpoint_new: false, native: Native::Ca1 };
                 let o = run_call(client, srv, TcpPipe);
                 let https = uri.starts_with("https");
                 let ran = !o.seen.is_empty();
@@ -905,7 +1098,7 @@ fn corpus(out: &mut Out, pki: &Pki) {
                     oracle = Some("hang".into());
                 }
                 let model = format!(
-                    "obs_call true {} (Some DExample) {} {}",
+                    "obs_call [CA1] true {} (Some DExample) {} {}",
                     coq_scheme(uri),
                     if with_tls { "(Some (ca_certificate cfg0 CA1))" } else { "None" },
                     srv_coq
@@ -921,24 +1114,28 @@ fn corpus(out: &mut Out, pki: &Pki) {
             }
         }
     }
-    // --- Endpoint::new (generated clients): https gets a TLS connector with the enabled roots only
-    for (uri, plain_srv) in [("https://example.test", false), ("https://example.test", true), ("http://example.test", true)] {
-        let (srv, srv_coq) = if plain_srv { (ServerSpec::Plain, "SPlain".to_string()) } else { tonic_srv(pki, false, false) };
-        let o = run_call(ClientSpec { uri: uri.into(), tls: None, via_endpoint_new: true }, srv, TcpPipe);
-        let https = uri.starts_with("https");
-        let oracle = if https && (!o.seen.is_empty() || contains_preface(&o.wire) || o.rpc_ok) {
-            Some("Endpoint::new(https) without roots reached a handler or sent plaintext".to_string())
-        } else {
-            None
-        };
-        out.push(Case {
-            kind: "corpus.endpoint_new".into(),
-            input: json!({"uri": uri, "plain_server": plain_srv, "observed": {"class": format!("{:?}", o.class), "error": o.err_text}}),
-            model: format!("obs_call_endpoint_new {} (Some DExample) {}", coq_scheme(uri), srv_coq),
-            impl_obs: call_tr(pki, &o),
-            oracle,
-            nontrivial: true,
-        });
+    // --- Endpoint::new (generated clients): https gets a TLS connector with the enabled root
+    //     sets only (this build: platform + webpki), so it depends on what the platform trusts
+    for native in [Native::Ca1, Native::Ca2, Native::Empty] {
+        for (uri, plain_srv) in [("https://example.test", false), ("https://example.test", true), ("http://example.test", true)] {
+            let (srv, srv_coq) = if plain_srv { (ServerSpec::Plain, "SPlain".to_string()) } else { tonic_srv(pki, false, false) };
+            let o = run_call(ClientSpec { uri: uri.into(), tls: None, via_endpoint_new: true, native }, srv, TcpPipe);
+            let https = uri.starts_with("https");
+            let ran = !o.seen.is_empty();
+            let oracle = if https && (contains_preface(&o.wire) || (ran && (plain_srv || native != Native::Ca1))) {
+                Some("Endpoint::new(https) reached a handler without the platform trusting the server's CA, or sent plaintext".to_string())
+            } else {
+                None
+            };
+            out.push(Case {
+                kind: "corpus.endpoint_new".into(),
+                input: json!({"uri": uri, "plain_server": plain_srv, "SSL_CERT_FILE": format!("{:?}", native), "observed": {"class": format!("{:?}", o.class), "cfg_err": o.cfg_err, "error": o.err_text}}),
+                model: format!("obs_call_endpoint_new {} {} (Some DExample) {}", native.coq(), coq_scheme(uri), srv_coq),
+                impl_obs: call_tr(pki, &o),
+                oracle,
+                nontrivial: true,
+            });
+        }
     }
     // --- root store composition: trust anchors, several CAs, with_enabled_roots drops self
     let anchor = |pem: &[u8]| {
@@ -968,7 +1165,8 @@ fn corpus(out: &mut Out, pki: &Pki) {
     ];
     for (name, cfg, coq, may_serve) in variants {
         let (srv, srv_coq) = tonic_srv(pki, false, false);
-        let o = run_call(ClientSpec { uri: "https://example.test".into(), tls: Some(cfg), via_endpoint_new: false }, srv, TcpPipe);
+        // the platform trusts CA2 only here: with_enabled_roots switches the platform set on
+        let o = run_call(ClientSpec { uri: "https://example.test".into(), tls: Some(cfg), via_endpoint_new: false, native: Native::Ca2 }, srv, TcpPipe);
         let oracle = if !may_serve && !o.seen.is_empty() {
             Some("a handler ran although CA1 is not among the configured roots".to_string())
         } else if contains_preface(&o.wire) {
@@ -979,7 +1177,7 @@ fn corpus(out: &mut Out, pki: &Pki) {
         out.push(Case {
             kind: "corpus.roots".into(),
             input: json!({"client_config": name, "observed": {"class": format!("{:?}", o.class), "error": o.err_text}}),
-            model: format!("obs_call true Https (Some DExample) (Some {}) {}", coq, srv_coq),
+            model: format!("obs_call [CA2] true Https (Some DExample) (Some {}) {}", coq, srv_coq),
             impl_obs: call_tr(pki, &o),
             oracle,
             nontrivial: true,
@@ -988,11 +1186,11 @@ fn corpus(out: &mut Out, pki: &Pki) {
     // --- a domain that is not a DNS name is refused when the endpoint is configured
     {
         let (srv, srv_coq) = tonic_srv(pki, false, false);
-        let o = run_call(ClientSpec { uri: "https://example.test".into(), tls: Some(right().domain_name("not a dns name!")), via_endpoint_new: false }, srv, TcpPipe);
+        let o = run_call(ClientSpec { uri: "https://example.test".into(), tls: Some(right().domain_name("not a dns name!")), via_endpoint_new: false, native: Native::Ca1 }, srv, TcpPipe);
         out.push(Case {
             kind: "corpus.bad_domain".into(),
             input: json!({"domain_name": "not a dns name!", "observed": {"cfg_err": o.cfg_err, "error": o.err_text}}),
-            model: format!("obs_call true Https (Some DExample) (Some (domain_name (ca_certificate cfg0 CA1) DBad)) {}", srv_coq),
+            model: format!("obs_call [CA1] true Https (Some DExample) (Some (domain_name (ca_certificate cfg0 CA1) DBad)) {}", srv_coq),
             impl_obs: call_tr(pki, &o),
             oracle: if !o.seen.is_empty() { Some("handler ran".into()) } else { None },
             nontrivial: true,
@@ -1013,13 +1211,181 @@ fn corpus(out: &mut Out, pki: &Pki) {
             kind: "corpus.conninfo".into(),
             input: json!({"io": "non-TCP connect info", "cell": c.json()}),
             model: format!(
-                "obs_call false Https (Some DExample) (Some (cell_client_cfg {})) (mk_srv SrvExample {} {})",
+                "obs_call [CA1] false Https (Some DExample) (Some (cell_client_cfg {})) (mk_srv SrvExample {} {})",
                 c.coq(),
                 if cauth >= 2 { "(Some CA2)" } else { "None" },
                 coq_bool(cauth == 1 || cauth == 3)
             ),
             impl_obs: call_tr(pki, &o),
             oracle,
+            nontrivial: true,
+        });
+    }
+    // --- H10: platform / webpki root sets are consulted only when switched on (the build has both
+    //     features); SSL_CERT_FILE names what "the platform" trusts
+    {
+        let ca = |pem: &Vec<u8>| Certificate::from_pem(pem);
+        // (description, config, Gallina, CA1 configured explicitly, platform set switched on)
+        let cfgs: Vec<(&str, ClientTlsConfig, &str, bool, bool)> = vec![
+            ("ca(CA2)", ClientTlsConfig::new().ca_certificate(ca(&pki.ca2)), "(ca_certificate cfg0 CA2)", false, false),
+            ("ca(CA2).with_native_roots()", ClientTlsConfig::new().ca_certificate(ca(&pki.ca2)).with_native_roots(), "(with_native_roots (ca_certificate cfg0 CA2))", false, true),
+            ("ca(CA2).with_webpki_roots()", ClientTlsConfig::new().ca_certificate(ca(&pki.ca2)).with_webpki_roots(), "(with_webpki_roots (ca_certificate cfg0 CA2))", false, false),
+            ("with_native_roots()", ClientTlsConfig::new().with_native_roots(), "(with_native_roots cfg0)", false, true),
+            ("with_webpki_roots()", ClientTlsConfig::new().with_webpki_roots(), "(with_webpki_roots cfg0)", false, false),
+            ("with_native_roots().with_webpki_roots()", ClientTlsConfig::new().with_native_roots().with_webpki_roots(), "(with_webpki_roots (with_native_roots cfg0))", false, true),
+            ("with_enabled_roots()", ClientTlsConfig::new().with_enabled_roots(), "(with_enabled_roots t_features cfg0)", false, true),
+            ("ca(CA2).with_enabled_roots()", ClientTlsConfig::new().ca_certificate(ca(&pki.ca2)).with_enabled_roots(), "(with_enabled_roots t_features (ca_certificate cfg0 CA2))", false, true),
+            ("ca(CA1).with_native_roots()", ClientTlsConfig::new().ca_certificate(ca(&pki.ca1)).with_native_roots(), "(with_native_roots (ca_certificate cfg0 CA1))", true, true),
+            ("ca(CA1)", ClientTlsConfig::new().ca_certificate(ca(&pki.ca1)), "(ca_certificate cfg0 CA1)", true, false),
+            ("new()", ClientTlsConfig::new(), "cfg0", false, false),
+        ];
+        for native in [Native::Ca1, Native::Ca2, Native::Empty] {
+            for (name, mk, coq, explicit_ca1, platform_on) in &cfgs {
+                let (srv, srv_coq) = tonic_srv(pki, false, false);
+                let o = run_call(ClientSpec { uri: "https://example.test".into(), tls: Some(mk.clone()), via_endpoint_new: false, native }, srv, TcpPipe);
+                let trusted = *explicit_ca1 || (*platform_on && native == Native::Ca1);
+                let oracle = if !o.seen.is_empty() && !trusted {
+                    Some("a handler ran although the server's CA is neither configured nor in a root set the caller switched on".to_string())
+                } else if contains_preface(&o.wire) {
+                    Some("plaintext on https".to_string())
+                } else if o.class == Class::Unclassified {
+                    Some(format!("unrecognised failure: {}", o.err_text))
+                } else {
+                    None
+                };
+                out.hist("native_roots.class", format!("{:?}/{:?}", o.class, o.cfg_err));
+                out.push(Case {
+                    kind: "corpus.native_roots".into(),
+                    input: json!({"client_config": name, "SSL_CERT_FILE": format!("{:?}", native), "observed": {"class": format!("{:?}", o.class), "cfg_err": o.cfg_err, "error": o.err_text}}),
+                    model: format!("obs_call {} true Https (Some DExample) (Some {}) {}", native.coq(), coq, srv_coq),
+                    impl_obs: call_tr(pki, &o),
+                    oracle,
+                    nontrivial: true,
+                });
+            }
+        }
+    }
+    // --- H10, webpki set: a server certificate that NAMES a public root of webpki-roots as issuer
+    //     (signed by our key) is rejected with a signature error exactly when that root is in the
+    //     store, with UnknownIssuer otherwise
+    {
+        let ca = |pem: &Vec<u8>| Certificate::from_pem(pem);
+        let cfgs: Vec<(&str, ClientTlsConfig, &str, bool)> = vec![
+            ("ca(CA2)", ClientTlsConfig::new().ca_certificate(ca(&pki.ca2)), "(ca_certificate cfg0 CA2)", false),
+            ("ca(CA1)", ClientTlsConfig::new().ca_certificate(ca(&pki.ca1)), "(ca_certificate cfg0 CA1)", false),
+            ("ca(CA2).with_native_roots()", ClientTlsConfig::new().ca_certificate(ca(&pki.ca2)).with_native_roots(), "(with_native_roots (ca_certificate cfg0 CA2))", false),
+            ("ca(CA2).with_webpki_roots()", ClientTlsConfig::new().ca_certificate(ca(&pki.ca2)).with_webpki_roots(), "(with_webpki_roots (ca_certificate cfg0 CA2))", true),
+            ("with_webpki_roots()", ClientTlsConfig::new().with_webpki_roots(), "(with_webpki_roots cfg0)", true),
+            ("with_enabled_roots()", ClientTlsConfig::new().with_enabled_roots(), "(with_enabled_roots t_features cfg0)", true),
+            ("new()", ClientTlsConfig::new(), "cfg0", false),
+        ];
+        for (name, cfg, coq, webpki_on) in cfgs {
+            let srv = ServerSpec::Tonic { cert: pki.srv_fake_public.clone(), client_ca: None, optional: false };
+            let o = run_call(ClientSpec { uri: "https://example.test".into(), tls: Some(cfg), via_endpoint_new: false, native: Native::Ca1 }, srv, TcpPipe);
+            let oracle = if !o.seen.is_empty() {
+                Some("a handler ran for a server certificate that no root store can validate".to_string())
+            } else if o.class == Class::BadSignature && !webpki_on {
+                Some("the webpki-roots set was consulted although it was not switched on (signature error against a public root instead of UnknownIssuer)".to_string())
+            } else if o.class == Class::Unclassified {
+                Some(format!("unrecognised failure: {}", o.err_text))
+            } else {
+                None
+            };
+            out.push(Case {
+                kind: "corpus.webpki_roots".into(),
+                input: json!({"client_config": name, "server_cert": "issuer name = ISRG Root X1, signed by a test key", "subject_bytes_exact": pki.fake_public_subject_exact,
+                              "observed": {"class": format!("{:?}", o.class), "error": o.err_text}}),
+                model: format!("obs_call [CA1] true Https (Some DExample) (Some {}) (mk_srv SrvFakePublic None false)", coq),
+                impl_obs: call_tr(pki, &o),
+                oracle,
+                nontrivial: pki.fake_public_subject_exact,
+            });
+        }
+    }
+    // --- H11: every other builder call on the Server keeps the TLS acceptor
+    {
+        let tls = Some((pki.srv_example.0.clone(), pki.srv_example.1.clone(), Some(pki.ca2.clone()), false));
+        let cfg_coq = "(mk_server_cfg (Some SrvExample) (Some CA2) false)";
+        let all: Vec<u8> = (0..N_SETS).collect();
+        let mut plans: Vec<BuildPlan> = vec![];
+        for o in 0..N_SETS {
+            plans.push(BuildPlan { sets_before: vec![], layer_before: None, tls: tls.clone(), sets_after: vec![o], layer_after: None });
+        }
+        for l in [0u8, 1] {
+            plans.push(BuildPlan { sets_before: vec![], layer_before: None, tls: tls.clone(), sets_after: vec![], layer_after: Some(l) });
+            plans.push(BuildPlan { sets_before: vec![], layer_before: Some(l), tls: tls.clone(), sets_after: vec![], layer_after: None });
+            plans.push(BuildPlan { sets_before: all.clone(), layer_before: Some(l), tls: tls.clone(), sets_after: all.clone(), layer_after: Some(1 - l) });
+        }
+        plans.push(BuildPlan { sets_before: all.clone(), layer_before: None, tls: tls.clone(), sets_after: vec![], layer_after: None });
+        plans.push(BuildPlan { sets_before: vec![], layer_before: None, tls: tls.clone(), sets_after: all.clone(), layer_after: None });
+        plans.push(BuildPlan { sets_before: vec![], layer_before: None, tls: tls.clone(), sets_after: vec![], layer_after: None });
+        // and without tls_config at all: a plaintext listener
+        plans.push(BuildPlan { sets_before: vec![0], layer_before: Some(0), tls: None, sets_after: vec![1], layer_after: Some(1) });
+        let right = || ClientTlsConfig::new().ca_certificate(Certificate::from_pem(&pki.ca1));
+        for plan in plans {
+            let has_tls = plan.tls.is_some();
+            // (description, client, Gallina scheme, Gallina config, may a handler run against a TLS listener)
+            let clients: Vec<(&str, ClientSpec, &str, String, bool)> = vec![
+                ("http:// client", ClientSpec { uri: "http://example.test".into(), tls: None, via_endpoint_new: false, native: Native::Ca1 }, "Http", "None".into(), false),
+                ("https client without identity", ClientSpec { uri: "https://example.test".into(), tls: Some(right()), via_endpoint_new: false, native: Native::Ca1 }, "Https", "(Some (ca_certificate cfg0 CA1))".into(), false),
+                ("https client with a certificate of the other CA", ClientSpec { uri: "https://example.test".into(), tls: Some(right().identity(Identity::from_pem(&pki.cli_ca1.0, &pki.cli_ca1.1))), via_endpoint_new: false, native: Native::Ca1 }, "Https", "(Some (identity (ca_certificate cfg0 CA1) CliCA1))".into(), false),
+                ("https client with a certificate of the client CA", ClientSpec { uri: "https://example.test".into(), tls: Some(right().identity(Identity::from_pem(&pki.cli_ca2.0, &pki.cli_ca2.1))), via_endpoint_new: false, native: Native::Ca1 }, "Https", "(Some (identity (ca_certificate cfg0 CA1) CliCA2))".into(), true),
+            ];
+            for (cname, client, sch, ccoq, may) in clients {
+                let o = run_call(client, ServerSpec::Built { plan: plan.clone() }, TcpPipe);
+                let ran = !o.seen.is_empty();
+                let mut oracle = None;
+                if has_tls && ran && !may {
+                    oracle = Some(format!("after {} the server ran a handler for a client that TLS with a required client certificate must keep out ({})", plan.describe(), cname));
+                }
+                if has_tls && ran && o.seen[0].request_peer_certs.as_ref().map(|v| v.len() == 1 && v[0] == pki.cli_ca2_der) != Some(true) {
+                    oracle = Some(format!("after {} the handler does not see the verified client certificate", plan.describe()));
+                }
+                if o.class == Class::Unclassified || o.class == Class::Hang {
+                    oracle = Some(format!("unrecognised failure / hang: {}", o.err_text));
+                }
+                out.hist("server_builder.class", format!("{:?}", o.class));
+                out.push(Case {
+                    kind: "corpus.server_builder".into(),
+                    input: json!({"server": plan.describe(), "client": cname, "observed": {"class": format!("{:?}", o.class), "handler_runs": o.seen.len(), "error": o.err_text}}),
+                    model: format!("obs_call_built [CA1] {} (Some DExample) {} {}", sch, ccoq, plan.coq(cfg_coq)),
+                    impl_obs: call_tr(pki, &o),
+                    oracle,
+                    nontrivial: true,
+                });
+            }
+        }
+    }
+    // --- PEM inputs that contain no certificate
+    {
+        let garbage = b"this is not a PEM file\n".to_vec();
+        let broken = b"-----BEGIN CERTIFICATE-----\n!!!! not base64 !!!!\n-----END CERTIFICATE-----\n".to_vec();
+        for (name, pem) in [("no PEM section", &garbage), ("undecodable PEM section", &broken)] {
+            let cfg = ServerTlsConfig::new().identity(Identity::from_pem(&pki.srv_example.0, &pki.srv_example.1)).client_ca_root(Certificate::from_pem(pem));
+            let r = catch(std::panic::AssertUnwindSafe(|| Server::builder().tls_config(cfg).is_ok()));
+            let obs = match r {
+                Err(_) => Tr::L(vec![Tr::n(0u8)]),
+                Ok(true) => Tr::L(vec![Tr::n(1u8)]),
+                Ok(false) => Tr::L(vec![Tr::n(2u8)]),
+            };
+            out.push(Case {
+                kind: "corpus.pem".into(),
+                input: json!({"client_ca_root": name}),
+                model: "obs_acceptor (mk_server_cfg (Some SrvExample) (Some CAGarbage) false)".into(),
+                impl_obs: obs,
+                oracle: if r == Ok(true) { Some("a server was built with a client CA that contains no certificate (nobody could be verified against it)".into()) } else { None },
+                nontrivial: true,
+            });
+        }
+        // client side: a CA "certificate" without any PEM section adds no root
+        let (srv, srv_coq) = tonic_srv(pki, false, false);
+        let o = run_call(ClientSpec { uri: "https://example.test".into(), tls: Some(ClientTlsConfig::new().ca_certificate(Certificate::from_pem(&garbage))), via_endpoint_new: false, native: Native::Ca1 }, srv, TcpPipe);
+        out.push(Case {
+            kind: "corpus.pem".into(),
+            input: json!({"ca_certificate": "no PEM section", "observed": {"class": format!("{:?}", o.class), "cfg_err": o.cfg_err}}),
+            model: format!("obs_call [CA1] true Https (Some DExample) (Some (ca_certificate cfg0 CAGarbage)) {}", srv_coq),
+            impl_obs: call_tr(pki, &o),
+            oracle: if !o.seen.is_empty() { Some("handler ran without any usable root".into()) } else { None },
             nontrivial: true,
         });
     }
@@ -1132,16 +1498,32 @@ fn main() {
     for c in &picked {
         run_cell(&mut out, &pki, c, "corpus.cell");
     }
+    // the same hand-picked cells against a listener that only speaks TLS 1.2 (there the client
+    // certificate is judged before the client's handshake completes)
+    for c in &picked {
+        run_cell_mode(&mut out, &pki, c, "corpus.tls12", 2, None);
+    }
 
     let cells = if a.thorough { all_cells() } else { quick_slice(&mut r, 864) };
     let total = all_cells().len();
     let n = cells.len();
+    let mut distinct = std::collections::HashSet::new();
+    let mut n_stub = 0;
     for c in &cells {
-        run_cell(&mut out, &pki, c, "cell");
+        let t = run_cell(&mut out, &pki, c, "cell");
+        if c.alpn == 0 {
+            // tonic's acceptor ran this cell; the rustls stub used for the other ALPN lists must
+            // agree with it when it is given ALPN h2
+            run_cell_mode(&mut out, &pki, c, "cell.stub_h2", 1, Some(&t));
+            n_stub += 1;
+        }
+        distinct.insert(t);
     }
     out.finish(
         IMPORTS,
-        "cell: one real rustls handshake + unary call per cell of client roots{right,other,none} x domain{cfg example.test, cfg other.test, from URI} x URI host{example.test,other.test} x server cert SAN{example.test,other.test} x server ALPN{h2 (tonic's acceptor), none, http/1.1 (rustls acceptor configured like tonic's with the ALPN list replaced)} x assume_http2 x client-auth{none, none+optional flag, required, optional} x identity{none, client CA, other CA}; thorough = all 2592 cells, quick = pairwise-covering set + seeded sample (>= 864 cells); corpus: scheme x tls config x plaintext/TLS server, Endpoint::new, root store composition, invalid domain, connect-info type, acceptor without identity, server ALPN against bare rustls clients. Distinct = distinct (kind, model expression).",
-        json!({"matrix_cells_total": total, "matrix_cells_run": n, "exhaustive_matrix": a.thorough}),
+        "cell: one real rustls handshake + unary call per cell of client roots{right,other,none} x domain{cfg example.test, cfg other.test, from URI} x URI host{example.test,other.test} x server cert SAN{example.test,other.test} x server ALPN{h2 (tonic's acceptor), none, http/1.1 (rustls acceptor configured like tonic's with the ALPN list replaced)} x assume_http2 x client-auth{none, none+optional flag, required, optional} x identity{none, client CA, other CA}; thorough = all 2592 cells, quick = pairwise-covering set + seeded sample (>= 864 cells); cell.stub_h2: every ALPN-h2 cell again on the rustls stub with ALPN h2, oracle = same observable as tonic's acceptor; corpus: scheme x tls config x plaintext/TLS server, Endpoint::new x SSL_CERT_FILE, root store composition, native/webpki root flags x SSL_CERT_FILE{CA1,CA2,empty} (build has both root features), Server builder calls (16 setters, layer before/after, all) around tls_config x {http client, https without identity, other-CA identity, valid identity}, PEM without certificates, invalid domain, connect-info type, acceptor without identity, server ALPN against bare rustls clients, hand-picked cells on a TLS 1.2-only listener. Distinct = distinct (kind, model expression).",
+        json!({"matrix_cells_total": total, "matrix_cells_run": n, "exhaustive_matrix": a.thorough,
+               "cells_on_tonic_acceptor": cells.iter().filter(|c| c.alpn == 0).count(), "stub_cross_validated_cells": n_stub,
+               "distinct_cell_observables": distinct.len()}),
     );
 }
